@@ -40,6 +40,7 @@ type ConcCase struct {
 	U       []TSpec    `json:"u"`
 	Names   []string   `json:"names"`
 	Pre     [][]int    `json:"pre"` // initial content per graph
+	Absent  []int      `json:"absent,omitempty"` // names that do not exist when the clients start
 	Clients [][]ConcOp `json:"clients"`
 	Opts    []OptSpec  `json:"opts"`
 	Cap     int        `json:"cap"`
@@ -72,6 +73,12 @@ func (h *concHarness) Gen(r *Rand, tier string, clean bool) any {
 		}
 		c.Pre = append(c.Pre, pre)
 	}
+	// some runs have a name that does not exist at the start: concurrent creation / drop of one name
+	if ng < 3 && r.Chance(0.3) {
+		c.Names = append(c.Names, "?gx")
+		c.Pre = append(c.Pre, nil)
+		c.Absent = []int{len(c.Names) - 1}
+	}
 	// shared option values: default-like, a window, LatestAnchor, a filter
 	c.Opts = []OptSpec{{}, {Latest: true}, {FOp: "isTemporal", FField: "predicate"}}
 	switch r.Intn(3) {
@@ -100,6 +107,15 @@ func (h *concHarness) Gen(r *Rand, tier string, clean bool) any {
 		var ops []ConcOp
 		for j := 0; j < n; j++ {
 			op := ConcOp{G: r.Intn(ng), Opt: -1}
+			if len(c.Absent) > 0 && !bql && r.Chance(0.5) {
+				op.G = c.Absent[0]
+				op.K = []string{"new", "new", "get", "del", "names", "add"}[r.Intn(6)]
+				if op.K == "add" {
+					op.Ts = []int{r.Intn(len(c.U))}
+				}
+				ops = append(ops, op)
+				continue
+			}
 			switch x := r.Intn(100); {
 			case x < 6 && bql:
 				op.K = "qinsert"
@@ -293,6 +309,9 @@ func (h *concHarness) model(c *ConcCase, uni []*triple.Triple) porcupine.Model {
 				s.bound[i] = -1
 			}
 			for g := range c.Names {
+				if isAbsent(c, g) {
+					continue
+				}
 				s.bound[g] = int8(g)
 				for _, ti := range c.Pre[g] {
 					s.sets[g] |= 1 << uint(ti)
@@ -440,6 +459,9 @@ func (h *concHarness) Run(t *testing.T, ci any) *Outcome {
 		st = memory.NewStore()
 		initial := make([]storage.Graph, len(c.Names))
 		for g, name := range c.Names {
+			if isAbsent(c, g) {
+				continue
+			}
 			gr, err := st.NewGraph(ctx, name)
 			if err != nil {
 				panic(err)
@@ -461,7 +483,14 @@ func (h *concHarness) Run(t *testing.T, ci any) *Outcome {
 					ev := &concEvent{client: ci, desc: descOp(c, op)}
 					name := c.Names[op.G]
 					hd := handles[op.G]
-					ev.in = linIn{k: op.K, name: op.G, gid: gids[hd]}
+					if hd == nil && (op.K == "add" || op.K == "rm" || op.K == "exist" || op.K == "lookup") {
+						op.K = "get" // no handle for this name yet: try to obtain one
+						ev.desc = descOp(c, op)
+					}
+					ev.in = linIn{k: op.K, name: op.G}
+					if hd != nil {
+						ev.in.gid = gids[hd]
+					}
 					events = append(events, ev)
 					ev.call = sim.Stamp()
 					switch op.K {
@@ -724,6 +753,15 @@ func cellObject(c *table.Cell) (*triple.Object, error) {
 		return triple.NewLiteralObject(c.L), nil
 	}
 	return nil, fmt.Errorf("cell holds no object")
+}
+
+func isAbsent(c *ConcCase, g int) bool {
+	for _, a := range c.Absent {
+		if a == g {
+			return true
+		}
+	}
+	return false
 }
 
 func descOp(c *ConcCase, op ConcOp) string {
